@@ -4,6 +4,9 @@
 set -e
 cd "$(dirname "$0")"
 export PIP_NO_INDEX=1
+# one builder at a time (several checks started together on a fresh checkout would otherwise race on .venv)
+exec 9>.setup.lock
+flock 9
 if [ -x .venv/bin/python ] && .venv/bin/python -c "import z3, jsonschema, frozendict" 2>/dev/null; then
   exit 0
 fi
